@@ -184,7 +184,16 @@ inline std::string render_json(const MVal& v, const RenderOpt& o = RenderOpt(), 
 
 // Give every Float node a random literal (.s) and make .f the value it denotes.
 inline void respell_floats(MVal& v, Rng& r) {
-  if (v.k == MVal::Float) { v.s = json_float_spelling(v.f, r); v.f = strtod(v.s.c_str(), nullptr); }
+  if (v.k == MVal::Float) {
+    v.s = json_float_spelling(v.f, r);
+    // now and then padded with fraction zeros to 61..63 characters: the longest number tokens the deserializer takes
+    size_t dot = v.s.find('.');
+    if (dot != std::string::npos && v.s.size() < 61 && r.chance(1, 24)) {
+      size_t e = v.s.find_first_of("eE");
+      v.s.insert(e == std::string::npos ? v.s.size() : e, std::string((size_t)r.range(61, 63) - v.s.size(), '0'));
+    }
+    v.f = strtod(v.s.c_str(), nullptr);
+  }
   for (auto& e : v.a) respell_floats(e, r);
   for (auto& e : v.o) respell_floats(e.second, r);
 }
